@@ -120,6 +120,14 @@ func runInprocScript(rng *Rng, kind string, o isOpts) *isScript {
 				st.evs = eng.do("cs", func() string { return resOf(cs.SendMsg(&Msg{Count: int32(id)})) })
 			case "closesend":
 				st.evs = eng.do("cs", func() string { return resOf(cs.CloseSend()) })
+			case "sendbad":
+				// a message the channel's cloner refuses (not a protobuf message): an error, and nothing else changes
+				st.evs = eng.do("cs", func() string {
+					if err := cs.SendMsg(&hsNotProto{A: 1}); err != nil {
+						return "plain"
+					}
+					return "ok"
+				})
 			}
 		case "cr":
 			switch st.op {
@@ -235,6 +243,9 @@ func runInprocScript(rng *Rng, kind string, o isOpts) *isScript {
 					}
 				}
 				cands = append(cands, isStep{actor: "cs", op: "closesend"})
+				if o.transport == "inproc" && rng.Chance(12) {
+					cands = append(cands, isStep{actor: "cs", op: "sendbad"})
+				}
 			}
 			if eng.idle("cr") && !o.noClientRecv {
 				cands = append(cands, isStep{actor: "cr", op: "recv"}, isStep{actor: "cr", op: "recv"}, isStep{actor: "cr", op: "header"}, isStep{actor: "cr", op: "trailer"})
